@@ -1,5 +1,10 @@
 """constants the path-combinator model needs -> Gen/CombineConfig.v
-(src, need, emit, missing, re are injected by tools/gen.py)"""
+(src, need, expect, emit, missing, re are injected by tools/gen.py)
+
+`need`: constants and layout tables the model imports (Gen/CombineConfig.v).
+`expect`: mirrored statements of graph.rs / types.rs whose behaviour the h_combine harness observes
+(order of results, MTU, odd interface lists, expiry): a miss only enlarges the case count and lets
+the correspondence decide.  The patterns pin operators / callees, not local names or layout."""
 
 def _int(m, g=1, d=0):
     return int(m.group(g).replace("_", ""), 0) if m else d
@@ -12,7 +17,7 @@ def generate():
     peer = _int(need(t, r"const PEERING\s*=\s*(0b[01_]+|\d+);", "InfoFieldFlags::PEERING", ty))
     m = need(t, r"pub const EXP_TIME_UNIT: Duration = Duration::new\((\d+), ([\d_]+)\);", "EXP_TIME_UNIT", ty)
     unit_s, unit_ns = (_int(m, 1), _int(m, 2)) if m else (0, 0)
-    need(t, r"EXP_TIME_UNIT\.saturating_mul\(exp_time as u32 \+ 1\)", "exp_time_to_duration formula", ty)
+    expect(t, r"EXP_TIME_UNIT\s*\.saturating_mul\(\w+ as u32 \+ 1\)", "exp_time_to_duration formula", ty)
 
     ly = base + "proto/dataplane_path/standard/layout.rs"
     l = src(ly)
@@ -44,13 +49,13 @@ def generate():
 
     g = base + "scion/path/combinator/graph.rs"
     gt = src(g)
-    # constructs the hand-written model mirrors; a rewrite must be noticed
-    need(gt, r"\[last\] => \{[^}]*last\.segment\.is_non_core\(\) \|\| segment\.is_non_core\(\)", "valid_next_seg two-edge rule", g, re.S)
-    need(gt, r"first\.segment\.is_non_core\(\) && second\.segment\.is_core\(\) && segment\.is_non_core\(\)", "valid_next_seg three-edge rule", g)
-    need(gt, r"segment\.path_segment\(\)\.len\(\) as u64 - 1 - shortcut_idx", "number_of_hops formula", g)
-    need(gt, r"let d = a\.cost\.cmp\(&b\.cost\)\.then\(a\.edges\.len\(\)\.cmp\(&b\.edges\.len\(\)\)\);", "sort key head", g)
-    need(gt, r"mtu = std::cmp::min\(mtu, u16::try_from\(as_entry\.mtu\)\.unwrap_or\(u16::MAX\)\);", "AS MTU saturation", g)
-    need(gt, r"if interfaces\.len\(\) % 2 != 0 \{\s*return Ok\(None\);", "odd interface list is skipped", g)
+    # mirrored statements (observable through combine's result): soft
+    expect(gt, r"is_non_core\(\)\s*\|\|\s*\w+(\.\w+)*\.is_non_core\(\)", "valid_next_seg two-edge rule (not core,core)", g)
+    expect(gt, r"is_non_core\(\)\s*&&\s*\w+(\.\w+)*\.is_core\(\)\s*&&\s*\w+(\.\w+)*\.is_non_core\(\)", "valid_next_seg three-edge rule", g)
+    expect(gt, r"\.len\(\) as u64\s*-\s*1\s*-\s*\w+", "number_of_hops formula (len - 1 - shortcut_idx)", g)
+    expect(gt, r"\.cost\s*\.cmp\(&\w+\.cost\)\s*\.then\(\s*\w+\.edges\.len\(\)\.cmp\(&\w+\.edges\.len\(\)\)\s*\)", "sort key head (cost, then number of edges)", g)
+    expect(gt, r"u16::try_from\(\w+(\.\w+)*\.mtu\)\s*\.unwrap_or\(u16::MAX\)", "AS MTU saturation", g)
+    expect(gt, r"\.len\(\)\s*%\s*2\s*!=\s*0", "odd interface list is skipped", g)
 
     body = f"""From Coq Require Import NArith.
 Local Open Scope N_scope.
